@@ -238,7 +238,24 @@ pub fn parse_duration(input: &str) -> (r: Result<Duration, Error>) ensures r mat
     for name, props in [("new", ["C09", "C19"]), ("get_sleep_duration", ["C09", "C19"]), ("request_allowed", ["C09"]),
                         ("prune_log", ["C09"]), ("block_until_allowed", ["C09"])]:
         u.verify(SRC, f"RateLimit::{name}", "endpoint", props=props, fns={name: c[name]})
+    # the limiter's representation invariant holds after every operation: a method of RateLimit that did not exist when these contracts
+    # were written is verified against it (it may read the limiter, or change it and leave inv and the admission history as they were)
+    for name, recv in u.new_methods(SRC, "RateLimit"):
+        if recv == "&mut self":
+            u.ghost_call(name, method=True)
+            u.verify(SRC, f"RateLimit::{name}", "endpoint", props=["C09"], fns={name: new_method_spec()})
+        elif recv == "&self":
+            u.verify(SRC, f"RateLimit::{name}", "endpoint", props=["C09"], fns={name: FnSpec(sig="    requires self.wf_limits(),\n")})
     return u
+
+
+def new_method_spec():
+    return FnSpec(ghost=True, sig="""
+    requires old(self).inv(*old(w)),
+    ensures final(self).inv(*final(w)), //@C09.limiter_invariant_holds_after_every_operation
+        final(w).admissions == old(w).admissions, final(w).net == old(w).net, final(w).fs == old(w).fs, final(w).clock >= old(w).clock,
+        final(self).lim() == old(self).lim(),
+""")
 
 
 SPEC = """
